@@ -122,6 +122,11 @@ def cases(tier):
     for dim in (2, 3):
         for param in ("voxel", "center"):
             out.append({"kind": "affine-typed", "dim": dim, "param": param})
+    # ---- a small destination window far inside a long source (source indices beyond 255 / 65535 while
+    # the destination extents stay below): identity map in coordinates
+    for nsrc, start, nwin in ((300, 258, 40), (300, 0, 40), (70000, 65540, 8)):
+        for param in ("coord", "voxel"):
+            out.append({"kind": "window", "nsrc": nsrc, "start": start, "nwin": nwin, "param": param})
     # ---- corrections
     for dim in (2, 3):
         for shape in SHAPES[dim] + (EXTRA_SHAPES_THOROUGH[dim] if tier == "thorough" else []):
@@ -147,6 +152,12 @@ def cases(tier):
                         out.append(_cc("TC", "set", sysv, shape, payload, param, {"type": "shift", "k0": None, "range": "unit"}, tier))
                         if payload == "scalar" or tier == "thorough":
                             out.append(_cc("CT", "set", sysv, shape, payload, param, {"type": "shift", "k0": None, "range": "unit"}, tier))
+                # scalar data whose border voxels are +inf / -inf (no-data markers): vacated regions are
+                # still filled with zeros, moved voxels keep their (infinite) values
+                for k0 in sorted(set([-shape[0] - 1, -1, 0, 1, shape[0] + 1])):
+                    out.append(_cc("TC", "set", "same", shape, "inf-border", param, {"type": "shift", "k0": k0, "range": "edge"}, tier))
+                for sysv in SYSTEMS_OTHER:
+                    out.append(_cc("TC", "set", sysv, shape, "inf-border", param, {"type": "shift", "k0": None, "range": "unit"}, tier))
                 # fitted maps: the warp does not depend on the payload any more
                 for api in ("TC", "CT"):
                     for k0 in shifts_of(shape[0], tier, dim):
@@ -167,7 +178,7 @@ def cases(tier):
         for shape in [(3, 3), (4, 4), (5, 5), (3, 3, 3)] + ([(4, 4, 4)] if tier == "thorough" else []):
             for payload in PAYLOADS:
                 out.append({"kind": "rotcorr", "shape": list(shape), "payload": payload, "tier": tier})
-    order = {"affine": 0, "affine-typed": 1, "rotcorr": 2, "corr": 3}
+    order = {"window": 0, "affine": 0, "affine-typed": 1, "rotcorr": 2, "corr": 3}
     out.sort(key=lambda c: (order[c["kind"]], c.get("dim", len(c.get("shape", []))), int(np.prod(c.get("shape", [1])))))
     return out
 
@@ -328,7 +339,7 @@ def make_image(spec: Sys, payload, base, name):
     import darsia
 
     full = spec.shape
-    kw = {"space_dim": spec.dim, "scalar": payload in ("scalar", "series"), "dimensions": spec.dims(), "origin": list(spec.origin), "name": name}
+    kw = {"space_dim": spec.dim, "scalar": payload in ("scalar", "series", "inf-border"), "dimensions": spec.dims(), "origin": list(spec.origin), "name": name}
     if payload == "series":
         full = full + (2,)
         kw["series"] = True
@@ -336,6 +347,10 @@ def make_image(spec: Sys, payload, base, name):
     if payload == "vector":
         full = full + (2,)
     data = (base + 1 + np.arange(int(np.prod(full)), dtype=float)).reshape(full)
+    if payload == "inf-border":
+        for k_, idx in enumerate(np.ndindex(*full)):
+            if any(i == 0 or i == n_ - 1 for i, n_ in zip(idx, full)):
+                data[idx] = np.inf if k_ % 2 == 0 else -np.inf
     return darsia.Image(data, **kw)
 
 
@@ -858,6 +873,37 @@ def _meq(a, b):
     return a == b
 
 
+def run_window(case, r):
+    import darsia
+
+    nsrc, start, nwin, param = case["nsrc"], case["start"], case["nwin"], case["param"]
+    W = 3
+    src = darsia.Image((1.0 + np.arange(nsrc * W, dtype=float)).reshape(nsrc, W), dimensions=[float(nsrc), float(W)], origin=[0.0, float(nsrc)], space_dim=2, scalar=True)
+    # the window: rows start .. start+nwin-1 of the source, same voxel size, placed where those rows are
+    win = darsia.Image(np.zeros((nwin, W)), dimensions=[float(nwin), float(W)], origin=[0.0, float(nsrc - start)], space_dim=2, scalar=True)
+    T = darsia.AffineTransformation(2)
+    if param == "coord":
+        two = darsia.make_coordinate(np.zeros((2, 2)))
+        T.set_dtype(two, two)
+        T.set_parameters(translation=np.zeros(2), scaling=1.0, rotation=[0.0])
+    else:
+        # voxel p of the source system is voxel p - start of the destination system
+        two = darsia.make_voxel(np.zeros((2, 2), dtype=int))
+        T.set_dtype(two, two)
+        T.set_parameters(translation=np.array([-float(start), 0.0]), scaling=1.0, rotation=[0.0])
+    corr = darsia.TransformationCorrection(src.coordinatesystem, win.coordinatesystem, T)
+    want = src.img[start : start + nwin].copy()
+    cell = f"C09/correct/window/param={param}"
+    for call in ("array", "array-again"):
+        got = corr(src.img.copy())
+        r.check(isinstance(got, np.ndarray) and got.shape == want.shape and np.array_equal(got, want), cell, "a destination window far inside a long source shows exactly the source rows it covers", nsrc=nsrc, start=start, nwin=nwin, call=call, first_row_got=None if not isinstance(got, np.ndarray) or not got.size else got[0].tolist(), first_row_want=want[0].tolist())
+    r.nontriv(case)
+    r.count("states", 1)
+    r.count("transitions", 2)
+    r.count("traces", 1)
+    r.outcome(case)
+
+
 # ========================================================================= RotationCorrection
 def run_rotcorr(case, r):
     import darsia
@@ -911,5 +957,7 @@ def run_case(case, r):
         run_corr(case, r)
     elif k == "rotcorr":
         run_rotcorr(case, r)
+    elif k == "window":
+        run_window(case, r)
     else:
         raise AssertionError(k)
